@@ -1,6 +1,7 @@
 //! C10 (and the retain part of C01): all well-formed registries with n entries over a shape
 //! alphabet x all 2^n filters, against an independent reachability / bijection / substitution oracle.
 
+use vcommon::lit;
 use rayon::prelude::*;
 use scale_info::{
     form::PortableForm, Field, Path, PortableRegistry, PortableType, Type, TypeDef, TypeDefArray, TypeDefBitSequence,
@@ -35,24 +36,24 @@ pub enum ParKind {
 }
 
 fn defs(i: usize, n: u32, kinds: &[DefKind]) -> Vec<TypeDef<PortableForm>> {
-    let f = |name: &str, a: u32| Field::new(Some(format!("{name}{i}")), a.into(), Some(format!("Ty{i}")), vec![format!("field doc {i}")]);
+    let f = |name: &str, a: u32| lit::field(Some(format!("{name}{i}")), a.into(), Some(format!("Ty{i}")), vec![format!("field doc {i}")]);
     let mut o: Vec<TypeDef<PortableForm>> = vec![];
     for k in kinds {
         match k {
             DefKind::Prim => o.push(TypeDefPrimitive::U8.into()),
-            DefKind::Seq => (0..n).for_each(|a| o.push(TypeDefSequence::new(a.into()).into())),
-            DefKind::Arr => (0..n).for_each(|a| o.push(TypeDefArray::new(i as u32 + 2, a.into()).into())),
-            DefKind::Cmp => (0..n).for_each(|a| o.push(TypeDefCompact::new(a.into()).into())),
-            DefKind::Tup => (0..n).for_each(|a| (0..n).for_each(|b| o.push(TypeDefTuple::new_portable(vec![a.into(), b.into()]).into()))),
-            DefKind::Bits => (0..n).for_each(|a| (0..n).for_each(|b| o.push(TypeDefBitSequence::new_portable(a.into(), b.into()).into()))),
-            DefKind::Comp1 => (0..n).for_each(|a| o.push(TypeDefComposite::new(vec![f("x", a)]).into())),
-            DefKind::Comp2 => (0..n).for_each(|a| (0..n).for_each(|b| o.push(TypeDefComposite::new(vec![f("x", a), f("y", b)]).into()))),
+            DefKind::Seq => (0..n).for_each(|a| o.push(lit::sequence(a.into()).into())),
+            DefKind::Arr => (0..n).for_each(|a| o.push(lit::array(i as u32 + 2, a.into()).into())),
+            DefKind::Cmp => (0..n).for_each(|a| o.push(lit::compact(a.into()).into())),
+            DefKind::Tup => (0..n).for_each(|a| (0..n).for_each(|b| o.push(lit::tuple(vec![a.into(), b.into()]).into()))),
+            DefKind::Bits => (0..n).for_each(|a| (0..n).for_each(|b| o.push(lit::bits(a.into(), b.into()).into()))),
+            DefKind::Comp1 => (0..n).for_each(|a| o.push(lit::composite(vec![f("x", a)]).into())),
+            DefKind::Comp2 => (0..n).for_each(|a| (0..n).for_each(|b| o.push(lit::composite(vec![f("x", a), f("y", b)]).into()))),
             DefKind::Var => (0..n).for_each(|a| {
                 (0..n).for_each(|b| {
                     o.push(
-                        TypeDefVariant::new(vec![
-                            Variant::new(format!("A{i}"), vec![f("p", a)], 0, vec![]),
-                            Variant::new(format!("B{i}"), vec![Field::new(None, b.into(), None, vec![])], 7, vec![format!("variant doc {i}")]),
+                        lit::variants(vec![
+                            lit::variant(format!("A{i}"), vec![f("p", a)], 0, vec![]),
+                            lit::variant(format!("B{i}"), vec![lit::field(None, b.into(), None, vec![])], 7, vec![format!("variant doc {i}")]),
                         ])
                         .into(),
                     )
@@ -64,7 +65,7 @@ fn defs(i: usize, n: u32, kinds: &[DefKind]) -> Vec<TypeDef<PortableForm>> {
 }
 
 fn params(n: u32, kinds: &[ParKind]) -> Vec<Vec<TypeParameter<PortableForm>>> {
-    let p = |name: &str, a: Option<u32>| TypeParameter::new_portable(name.to_string(), a.map(Into::into));
+    let p = |name: &str, a: Option<u32>| lit::param(name.to_string(), a.map(Into::into));
     let mut o = vec![];
     for k in kinds {
         match k {
@@ -112,13 +113,13 @@ fn entry_choices(plan: &Plan) -> Vec<Vec<PType>> {
             let mut o = vec![];
             for d in defs(i, plan.n as u32, &plan.defs) {
                 for p in params(plan.n as u32, &plan.pars) {
-                    o.push(Type::new(Path::from_segments_unchecked([format!("m{i}"), format!("E{i}")]), p, d.clone(), vec![format!("doc {i}")]));
+                    o.push(lit::ty(path_of([format!("m{i}"), format!("E{i}")]), p, d.clone(), vec![format!("doc {i}")]));
                 }
             }
             // entries without any payload: a bare `bool` (what a registered `bool` looks like, and structurally
             // equal to the placeholder retain uses internally) and a bare `u8`
-            o.push(Type::new(Path::default(), vec![], TypeDefPrimitive::Bool, vec![]));
-            o.push(Type::new(Path::default(), vec![], TypeDefPrimitive::U8, vec![]));
+            o.push(lit::ty(lit::path(vec![]), vec![], lit::primitive(scale_info::TypeDefPrimitive::Bool), vec![]));
+            o.push(lit::ty(lit::path(vec![]), vec![], lit::primitive(scale_info::TypeDefPrimitive::U8), vec![]));
             o
         })
         .collect()
@@ -217,7 +218,7 @@ pub fn registry_at(choices: &[Vec<PType>], mut k: u64) -> PortableRegistry {
     let mut types = Vec::with_capacity(choices.len());
     for (i, c) in choices.iter().enumerate() {
         let m = c.len() as u64;
-        types.push(PortableType::new(i as u32, c[(k % m) as usize].clone()));
+        types.push(lit::entry(i as u32, c[(k % m) as usize].clone()));
         k /= m;
     }
     PortableRegistry { types }
@@ -298,4 +299,10 @@ pub fn brief(r: &PortableRegistry) -> String {
 pub fn replay_case(case: &Value, c01_only: bool) -> Option<(String, String)> {
     let r = refjson::read_registry(&case["registry_json"]).ok()?;
     check_retain_kind(&r, case["mask"].as_u64()? as u32, c01_only, case["predicate"].as_u64().unwrap_or(0) as u8)
+}
+
+/// a portable path built through the public field (no library constructor touches the segments)
+#[allow(dead_code)]
+fn path_of<I: IntoIterator<Item = String>>(segments: I) -> scale_info::Path<scale_info::form::PortableForm> {
+    scale_info::Path { segments: segments.into_iter().collect() }
 }
